@@ -8,6 +8,7 @@ use std::convert::From;
 verus! {
 
 //@include preamble/bits.rs
+//@include spec/lit_specs.rs
 
 // ================= preamble: assumed std contracts =================
 pub assume_specification<T, A: core::alloc::Allocator, F: FnMut() -> T>[ Vec::<T, A>::resize_with ](v: &mut Vec<T, A>, new_len: usize, f: F)
@@ -57,6 +58,54 @@ fn buf_slice<'a>(d: &'a Rc<Cow<'static, [u8]>>, r: Range<usize>) -> (s: &'a [u8]
     &d[r]
 }
 
+// `str::chars()` (ASSUMED): the characters in order
+#[verifier::external_body] pub struct StrChars<'a> { _p: &'a u8 }
+impl<'a> StrChars<'a> {
+    pub uninterp spec fn rem(&self) -> Seq<char>;
+    #[verifier::external_body] pub fn next(&mut self) -> (r: Option<char>)
+        ensures
+            old(self).rem().len() == 0 ==> r is None && final(self).rem() == old(self).rem(),
+            old(self).rem().len() > 0 ==> r == Some(old(self).rem()[0]) && final(self).rem() == old(self).rem().drop_first(),
+    { unimplemented!() }
+}
+#[verifier::external_body] fn verif_chars<'a>(s: &'a str) -> (r: StrChars<'a>) ensures r.rem() == s@ { unimplemented!() }
+pub assume_specification [ char::is_ascii_whitespace ] (c: &char) -> (r: bool)
+    ensures r == is_ws(*c);
+pub assume_specification [ char::to_digit ] (c: char, radix: u32) -> (r: Option<u32>)
+    ensures r is Some ==> r->0 < radix, radix == 16 ==> r == hexval(c);
+// one more hex digit packed into the buffer: a fresh byte `val << 4`, or the low nibble of the last byte
+proof fn lemma_hex_step(b0: Seq<u8>, b1: Seq<u8>, d0: Seq<u32>, v: u8, n: int)
+    requires
+        n == 4 * d0.len(), b0.len() == ubi(n), v < 16,
+        forall|p: int| 0 <= p < n ==> bit_at(b0, p) == #[trigger] nibs_bits(d0)[p],
+        n % 8 == 4 ==> b0[b0.len() - 1] & 0xfu8 == 0u8,
+        n % 8 == 0 ==> b1 == b0.push(v << 4u8),
+        n % 8 == 4 ==> b1 == b0.update(n / 8, b0[n / 8] | v),
+        n % 8 == 0 ==> ((v << 4u8) & 0xfu8 == 0u8
+            && ((((v << 4u8) >> 7u8) & 1u8) == ((v >> 3u8) & 1u8)) && ((((v << 4u8) >> 6u8) & 1u8) == ((v >> 2u8) & 1u8))
+            && ((((v << 4u8) >> 5u8) & 1u8) == ((v >> 1u8) & 1u8)) && ((((v << 4u8) >> 4u8) & 1u8) == ((v >> 0u8) & 1u8))),
+        n % 8 == 4 ==> ({ let b = b0[n / 8];
+            (((b | v) >> 7u8) & 1u8) == ((b >> 7u8) & 1u8) && (((b | v) >> 6u8) & 1u8) == ((b >> 6u8) & 1u8)
+            && (((b | v) >> 5u8) & 1u8) == ((b >> 5u8) & 1u8) && (((b | v) >> 4u8) & 1u8) == ((b >> 4u8) & 1u8)
+            && (((b | v) >> 3u8) & 1u8) == ((v >> 3u8) & 1u8) && (((b | v) >> 2u8) & 1u8) == ((v >> 2u8) & 1u8)
+            && (((b | v) >> 1u8) & 1u8) == ((v >> 1u8) & 1u8) && (((b | v) >> 0u8) & 1u8) == ((v >> 0u8) & 1u8) }),
+    ensures
+        b1.len() == ubi(n + 4),
+        forall|p: int| 0 <= p < n + 4 ==> bit_at(b1, p) == #[trigger] nibs_bits(d0.push(v as u32))[p],
+        (n + 4) % 8 == 4 ==> b1[b1.len() - 1] & 0xfu8 == 0u8,
+{
+    let d1 = d0.push(v as u32);
+    assert forall|p: int| 0 <= p < n + 4 implies bit_at(b1, p) == #[trigger] nibs_bits(d1)[p] by {
+        if p < n {
+            assert(nibs_bits(d1)[p] == nibs_bits(d0)[p]);
+            assert(b1[p / 8] == b0[p / 8] || (n % 8 == 4 && p / 8 == n / 8));
+            if n % 8 == 4 && p / 8 == n / 8 { assert(p % 8 < 4); }
+        } else {
+            assert(p / 4 == d0.len());
+            assert(d1[p / 4] == v as u32);
+        }
+    }
+}
 // ================= extracted: src/bitstr.rs =================
 //@type src/bitstr.rs type BitstrRange
 
@@ -96,6 +145,7 @@ impl Bitstr {
 //@use bitstr.fns Bitstr::iter8
 //@use bitstr.fns Bitstr::data_mut
 //@use bitstr.fns Bitstr::to_hex_string
+//@use bitstr.fns Bitstr::from_hex_str
 //@use bitstr.fns Bitstr::to_bytes_with_padding
 //@use bitstr.fns Bitstr::to_bytes
 //@use bitstr.fns Bitstr::eq_with
@@ -178,7 +228,6 @@ impl<'a> Iterator for Iter8<'a> {
 }
 
 // ---- the printer of bit-strings (C16, last clause): the `Cell::Bitstr` arm of `fmt::Debug for Cell`, lifted by Rarm
-//@include spec/lit_specs.rs
 //@type src/lex.rs const BIT_CLR_CHAR
 //@type src/lex.rs const BIT_SET_CHAR
 //@include preamble/fmt_sink.rs
